@@ -107,6 +107,15 @@ JudgeFit(e, O) ==
          \cup Flag(\A f \in DOMAIN O.feats :
                       (O.feats[f].kind = "quanti" /\ NAN \in GLLeaders(O.feats[f].vo)) => GLMembers(O.feats[f].vo, NAN) = {NAN},
                    "C08_quantile_in_missing_value_group")
+         \* C05 speaks of "a feature with a default group": a plain categorical feature owns one as soon as one of its
+         \* training categories is rarer than min_freq (rows counted over the whole sample, categories through their string form)
+         \cup Flag(\A f \in DOMAIN O.feats :
+                      (e.plain_categ[f] /\ O.feats[f].kind = "quali") =>
+                         LET cells == e.frame[f]
+                             known == {i \in DOMAIN cells : cells[i][1] # NAN}
+                             cnt(v) == Cardinality({i \in known : cells[i][2] = v})
+                         IN  (\E i \in known : cnt(cells[i][2]) * e.mf[2] < e.mf[1] * Len(cells)) => HasDefault(O.feats[f].vo),
+                   "C05_rare_categories_without_default_group")
          \cup OrderClauses(e, O))
 
 (* transform on object P (observed before), logged frame / outputs *)
